@@ -257,8 +257,9 @@ let xisa_main () =
 (* ---------------------------------------------------------------- xcg: the model of xcmp's code generator (XCodegen*.v)
    hvmain xcg <prog.sx>      stdin lines:  <proc> size=<frame size> <global>=<word address> ... #<constant>=<pool address> ...
    The program goes through XConstProp.front (constant propagation + operator rewrites: what the code generator
-   reads); for the named procedure the model generates the code of the expression of its final `return e`, with
-   the procedure's frame symbols (XCodegenExpr.frame_venv), labels numbered from 0.
+   reads); for the named procedure the model generates the whole procedure (XCodegenStmt.cproc: prologue, body,
+   exit label 0, epilogue, then the three peephole rewrites), with the procedure's frame symbols
+   (XCodegenExpr.frame_venv); body labels are numbered from 1.
    output:  "LDAM 2; BRZ L0; LDAC 0; L0:"   or "none" (outside the modelled fragment) or "front-error" *)
 let instr_str (i : XCodegenIsa.instr) : string =
   let open XCodegenIsa in
@@ -283,19 +284,13 @@ let xcg_main () =
           let size = match SL.assoc_opt "size" kv with Some n -> n | None -> 0 in
           let gaddr (x : String.string) = match SL.assoc_opt (ocaml_string x) kv with Some a -> Some (zi a) | None -> None in
           let pool (v : BinNums.coq_Z) = match SL.assoc_opt (P.sprintf "#%d" (iz v)) kv with Some a -> Some (zi a) | None -> None in
+          let og = match SL.assoc_opt "og" kv with Some n -> n | None -> size in
           (match SL.find_opt (fun q -> ocaml_string q.XAst.pname = pname) p.XAst.procs with
            | None -> print_endline "none"
            | Some q ->
-               let last = match q.XAst.body with
-                 | XAst.SSeq ss when ss <> [] -> SL.nth ss (SL.length ss - 1)
-                 | s -> s in
-               (match last with
-                | XAst.SReturn e ->
-                    let venv = XCodegenExpr.frame_venv gaddr q (zi size) in
-                    (match XCodegenExpr.cg venv pool (zi size) (zi 100000) e XCodegenExpr.RA (zi 0) (XCodegenExpr.first_temp q) with
-                     | Some (code, _) -> print_endline (SS.concat "; " (SL.map instr_str code))
-                     | None -> print_endline "none")
-                | _ -> print_endline "none"))
+               (match XCodegenStmt.cproc gaddr pool q (zi size) (zi og) with
+                | Some code -> print_endline (SS.concat "; " (SL.map instr_str code))
+                | None -> print_endline "none"))
       | _, [] -> ()
     end
   done with End_of_file -> ()
